@@ -99,12 +99,28 @@ def tfl_mul_ref(in1, in2, out):
 
 # ------------------------------------------------------------------------------------------------
 # property oracles (exact)
+def range_class(X):
+    """"in": the scale must get an accurate pair; "out": it must get a zero multiplier; "edge": the two slivers
+    [2^E * (1 - 2^-32), 2^E) for E = 31 and E = -33 whose significand rounds up to the next power of two: 2^31 is
+    not representable with a shift >= 0 (degrading is right), 2^-33 = 2^30 * 2^-63 is (an accurate pair is right);
+    the property text does not fix the edge of the range to a relative 2^-32, so either is accepted there,
+    but a non-zero pair still has to be accurate."""
+    up = 1 - pow2(-32)
+    if X >= pow2(31) or X < pow2(-33) * up:
+        return "out"
+    if X >= pow2(31) * up or X < pow2(-33):
+        return "edge"
+    return "in"
+
+
 def oracle_quantise(m, e, q, s):
     """m * 2^e > 0 is the scale, (q, s) what quantise_scale returned. None or a reason."""
     X = frac(m, e)
-    in_range = pow2(-33) <= X < pow2(31)
-    if not in_range:
-        return None if q == 0 else "scale outside [2^-33, 2^31) gave multiplier %d, not 0" % q
+    rc = range_class(X)
+    if q == 0:
+        return None if rc != "in" else "scale in the hardware range degraded to a zero multiplier"
+    if rc == "out":
+        return "scale outside the hardware range gave multiplier %d, not 0" % q
     if not (1 << 30) <= q <= T31:
         return "multiplier %d not in [2^30, 2^31]" % q
     if not 0 <= s <= 63:
@@ -119,9 +135,11 @@ def oracle_quantise(m, e, q, s):
 
 def oracle_reduced(m, e, q, s):
     X = frac(m, e)
-    in_range = pow2(-33) <= X < pow2(31)
-    if not in_range:
-        return None if q == 0 else "scale outside the range gave reduced multiplier %d, not 0" % q
+    rc = range_class(X)
+    if q == 0:
+        return None if rc != "in" else "scale in the hardware range degraded to a zero reduced multiplier"
+    if rc == "out":
+        return "scale outside the range gave reduced multiplier %d, not 0" % q
     if not 0 < q <= 32767:
         return "reduced multiplier %d not in (0, 32767]" % q
     if abs(q * pow2(-s) - X) > X * pow2(-14):
@@ -355,7 +373,7 @@ def run(tier):
     # A. quantise_scale / reduced_quantise_scale on boundary, sampled and malformed values
     vals = []
     for E in list(range(-40, 40)) + [-1074, -1050, -1022, -200, -149, -126, 100, 127, 128, 1000, 1023]:
-        for mant in (1.0, 1.5, 1.0 + 2.0 ** -52, 2.0 - 2.0 ** -52, 2.0 - 2.0 ** -31, 2.0 - 2.0 ** -32 - 2.0 ** -52,
+        for mant in (1.0, 1.5, 1.0 + 2.0 ** -52, 2.0 - 2.0 ** -52, 2.0 - 2.0 ** -31, 2.0 - 2.0 ** -32 - 2.0 ** -52, 2.0 - 2.0 ** -32, 2.0 - 2.0 ** -33, 2.0 - 2.0 ** -32 + 2.0 ** -52,
                      2.0 - 2.0 ** -23, 1.0 + 2.0 ** -23, 1.9999999):
             try:
                 vals.append(math.ldexp(mant, E))
